@@ -386,7 +386,7 @@ def run_e2e_case(case):
                 tasks = [world.spawn(guarded(i, s), f"s{i}") for i, s in enumerate(case["sessions"])]
                 await asyncio.wait(tasks)
                 await asyncio.sleep(1)
-                await asyncio.wait_for(server.close(), 1e4)
+                await common.close_server(server)
 
             world.run(main())
         finally:
